@@ -39,7 +39,7 @@ def _nesting(text):
     return m
 
 
-def attempt(acc, text, inp, must_reject=None, path=None, lookup=None):
+def attempt(acc, text, inp, must_reject=None, path=None, lookup=None, compiler=None):
     """Compile once under the classifier. Returns 'ok' / 'rejected' / 'crash'."""
     from explorerscript.error import ParseError, SsbCompilerError
     from explorerscript.ssb_converting.ssb_compiler import ExplorerScriptSsbCompiler
@@ -47,7 +47,7 @@ def attempt(acc, text, inp, must_reject=None, path=None, lookup=None):
 
     monitors.drain()
     acc.announce(inp.get("name"), {"text": text})
-    c = ExplorerScriptSsbCompiler(PPL, list(lookup or []))
+    c = compiler or ExplorerScriptSsbCompiler(PPL, list(lookup or []))
     calls = monitors.COUNTS.get("K-COMPILE:exps:calls", 0)
     outcome = "ok"
     try:
@@ -106,6 +106,17 @@ def run_shard(shard, acc):
         if o != "ok":
             acc.count("valid_program_rejected")
             continue
+        # the same compiler object used again: a program that only *calls* the macros of the program compiled before must
+        # still be rejected (unknown macro), so must a jump to a label only the earlier program defines
+        if prog.get("macros") and any(invalid.has_macro_call(b) for _, b in prog["routines"] if b):
+            from explorerscript.ssb_converting.ssb_compiler import ExplorerScriptSsbCompiler
+            from vf.env import PPL
+            shared = ExplorerScriptSsbCompiler(PPL, [])
+            if attempt(acc, r.text, {"name": name + ":first-use", "text": r.text}, compiler=shared) == "ok":
+                t4 = print_program(dict(prog, macros=[], order=None)).text
+                attempt(acc, t4, {"name": name + ":second-use-without-the-macros", "text": t4, "before": r.text, "kind": "unknown_macro_on_reused_compiler"},
+                        must_reject="unknown_macro_on_reused_compiler", compiler=shared)
+                acc.count("injected:unknown_macro_on_reused_compiler")
         # one injection of every kind
         for kind in invalid.KINDS:
             p2 = invalid.inject(prog, kind, rnd)
